@@ -51,7 +51,7 @@ var c24Roles = map[string][]string{
 
 func init() {
 	register("C24", "other", "T9 KeyFlow (taint of key parameters / keys from below), T14 CodecPair (prefixed/noPrefix), T4 GuardedBy with reaching definitions (Compact limit), T6 WhoMayWrite (prefix/underlying fields), provenance of wrapper construction",
-		"Decides the key flow that table isolation depends on. (1) prefixed(key, prefix) returns a fresh concatenation prefix|separator|key and noPrefix cuts exactly len(prefix)+len(separator) bytes (returning shorter keys unchanged only under the matching length guard). (2) In every method of Table, IteratedReader, batch (keys going down) each key argument of a call on the wrapped store is prefixed(<the method's own key parameter>, receiver.prefix); in replayer and iterator (keys coming up) keys are handed on only as noPrefix(<key from below>, receiver.prefix); values and the iterator start are passed unchanged; a key parameter is used nowhere else (except nil tests). (3) NewIterator prefixes the iterator prefix and passes start unchanged (the underlying contract appends start to the prefix). (4) Compact passes prefixed(start) and, as the end, incPrefix(receiver.prefix) on exactly the limit == nil paths and prefixed(limit, receiver.prefix) otherwise (reaching definitions x nil-feasible paths; a nil end on limit == nil paths is tolerated with a note because it still covers the table). (5) Every wrapper object built inside the package (batch, replayer, iterator, snapshot, nested IteratedReader) carries the receiver's prefix and wraps the object obtained from the receiver's underlying store; New stores its prefix parameter and the same db in both underlying fields; NewTable is New(receiver, prefix); nothing assigns the prefix/underlying fields afterwards. Not decided: the arithmetic of incPrefix (that it is the least key above every key with the prefix, incl. 0xff carry), disjointness of sibling prefixes (MigrateTables discards uniqKeys.Check's error), behaviour of the underlying store (C23), history equivalence.",
+		"Decides the key flow that table isolation depends on. (1) prefixed(key, prefix) returns a fresh concatenation prefix|separator|key and noPrefix cuts exactly len(prefix)+len(separator) bytes (returning shorter keys unchanged only under the matching length guard). (2) In every method of Table, IteratedReader, batch (keys going down) each key argument of a call on the wrapped store is prefixed(<the method's own key parameter>, receiver.prefix); in replayer and iterator (keys coming up) keys are handed on only as noPrefix(<key from below>, receiver.prefix); values and the iterator start are passed unchanged; a key parameter is used nowhere else (except nil tests). (3) NewIterator prefixes the iterator prefix and passes start unchanged (the underlying contract appends start to the prefix). (4) Compact passes prefixed(start) and, as the end, incPrefix(receiver.prefix) on exactly the limit == nil paths and prefixed(limit, receiver.prefix) otherwise (reaching definitions x nil-feasible paths; a nil end on limit == nil paths is tolerated with a note because it still covers the table). (5) Every wrapper object built inside the package (batch, replayer, iterator, snapshot, nested IteratedReader) carries the receiver's prefix and wraps the object obtained from the receiver's underlying store; New stores its prefix parameter and the same db in both underlying fields; NewTable is New(receiver, prefix); nothing assigns the prefix/underlying fields afterwards. (6) incPrefix can answer nil ('no upper bound') for a non-empty prefix, and wherever it (or a same-package function it calls) decides something by shifting a machine word by a count computed from the prefix length, the count stays below the operand width for every length the guards admit (Go yields 0 for larger counts, so the carry out of an all-0xff prefix of that length would go unseen). Not decided: the rest of the arithmetic of incPrefix (that it is the least key above every key with the prefix), disjointness of sibling prefixes (MigrateTables discards uniqKeys.Check's error), behaviour of the underlying store (C23), history equivalence.",
 		[]string{"underlying NewIterator(prefix, start) iterates keys with the prefix starting at prefix|start (kvdb.Iteratee contract)", "underlying Compact treats a nil limit as 'to the end' (ethdb.Compacter contract)"},
 		runC24)
 }
@@ -211,7 +211,7 @@ func runC24(c *core.Ctx) {
 		c.Check(okAll && nCut >= 1, "noPrefix|inverse of prefixed", "T14 CodecPair", no.Pos(), "noPrefix(prefixed(k, p), p) = k: the cut equals the bytes prefixed puts in front ("+cut+")", "noPrefix is not the inverse of prefixed")
 	})
 
-	nKeySites := 0
+	nKeyDown, nKeyUp, nLimit := 0, 0, 0 // one floor per role: keys going down, keys coming up, the compaction end
 
 	c.Clause("C24.flow", func() {
 		var typeNames []string
@@ -259,7 +259,11 @@ func runC24(c *core.Ctx) {
 						}
 						switch role {
 						case "key":
-							nKeySites++
+							if w.dir == "up" {
+								nKeyUp++
+							} else {
+								nKeyDown++
+							}
 							inner, ok := c24wrapCall(f, w, a, wrapFn)
 							if !ok {
 								if _, wrong := c24wrapCall(f, w, a, other); wrong {
@@ -288,7 +292,7 @@ func runC24(c *core.Ctx) {
 							}
 							c.Check(okSrc, key, "T9 KeyFlow (pass-through)", a.Pos(), role+" is the method's parameter, unchanged", who+" passes "+exprStr(a)+" as "+role+": "+fail)
 						case "limit":
-							nKeySites++
+							nLimit++
 							c24checkCompactEnd(c, f, w, cs, a)
 						}
 					}
@@ -299,7 +303,7 @@ func runC24(c *core.Ctx) {
 						if cs.Recv() == nil || !c24isUnder(f, w, cs.Recv()) || c24methodName(cs.Name) != "Key" || len(cs.Call.Args) != 0 {
 							continue
 						}
-						nKeySites++
+						nKeyUp++
 						key := who + "|Key from below"
 						// the call must be the first argument of noPrefix(·, recv.prefix), and that is what is returned
 						ok := false
@@ -356,11 +360,14 @@ func runC24(c *core.Ctx) {
 				}
 			}
 		}
-		c.ExpectAtLeast("key-carrying call sites", nKeySites, 12)
+		// vacuity only, one instance per role (every site found is judged above)
+		c.ExpectAtLeast("calls on the wrapped store that carry a key down", nKeyDown, 1)
+		c.ExpectAtLeast("keys handed up from the wrapped object", nKeyUp, 1)
+		c.ExpectAtLeast("compaction ends handed to the wrapped store", nLimit, 1)
 	})
 
 	c.Clause("C24.wrap", func() {
-		n := 0
+		n := map[string]int{} // literals per wrapper type
 		for _, f := range p.FuncsInPkg(c24Pkg) {
 			var w c24wrapper
 			isMethod := false
@@ -404,7 +411,7 @@ func runC24(c *core.Ctx) {
 				c33litFields(f, cl, vals)
 				who := short(f.Name) + "|" + short(tname) + " literal"
 				wt := c24Wrappers[tname]
-				n++
+				n[tname]++
 				// prefix
 				pv := vals[wt.prefix]
 				okP := false
@@ -465,7 +472,15 @@ func runC24(c *core.Ctx) {
 				return true
 			})
 		}
-		c.ExpectAtLeast("wrapper literals", n, 6)
+		// vacuity only: every wrapper type of the table is built somewhere in the package (each literal is judged above)
+		var wnames []string
+		for tn := range c24Wrappers {
+			wnames = append(wnames, tn)
+		}
+		sort.Strings(wnames)
+		for _, tn := range wnames {
+			c.ExpectAtLeast(short(tn)+" literals", n[tn], 1)
+		}
 		// NewTable nests through New(t, prefix)
 		nt := c.Fn(c24Pkg + ".Table.NewTable")
 		okNT := len(nt.ReturnPoints()) > 0
@@ -504,6 +519,8 @@ func runC24(c *core.Ctx) {
 			c.Pass("prefix/underlying fields are set only by construction", "T6 WhoMayWrite", "no assignment to any prefix or underlying field in kvdb/table")
 		}
 	})
+
+	c24Inc(c)
 }
 
 // c24checkCompactEnd decides the second argument of the underlying Compact: incPrefix(recv.prefix) exactly on the
